@@ -177,6 +177,12 @@ def install(w):
     def to_dyn(it, v):
         if isinstance(v, VDyn):
             return v
+        if isinstance(v, VOpaque):
+            # nothing is known about the value: a stable box per opaque object, any tag
+            d0 = getattr(v, "_box", None)
+            if d0 is None:
+                d0 = v._box = it.fresh_dyn("box")
+            return d0
         d = it.fresh_dyn("box")
         t = d.t
         if isinstance(v, VBool):
@@ -215,6 +221,12 @@ def install(w):
             it.sadd(sym.tag(t) == T["dict"])
         else:
             it.sadd(sym.tag(t) == T["other"])
+            from pyvc.sym import VObj as _VObj
+            if isinstance(v, _VObj) and isinstance(v.cls, type):
+                # an engine-side object keeps its class (and bases) when seen as a dynamic value
+                for k in v.cls.__mro__:
+                    if k is not object:
+                        it.sadd(ISINST(t, sym.ATOMS.code(k)))
         return d
     w.to_dyn = to_dyn
 
@@ -604,12 +616,14 @@ def install(w):
         return prev_getattr2(it, v, attr, node)
     w.getattr_ext = getattr_ext2
 
+    prev_getattr_dyn = getattr(w, "getattr_dyn", None)
+
     def getattr_dyn(it, obj, name, default, node):
         """getattr(obj, <symbolic name>, default): any value (a function of object and name)."""
         if isinstance(obj, VDyn):
             nm = name if isinstance(name, VDyn) else w.to_dyn(it, name)
             return VDyn(ATTR_DYN(obj.t, nm.t))
-        return None
+        return prev_getattr_dyn(it, obj, name, default, node) if prev_getattr_dyn else None
     w.getattr_dyn = getattr_dyn
 
     # ------------------------------------------------------------------ dict-like dynamic values
